@@ -96,11 +96,12 @@ func TestC15(t *testing.T) {
 	var cells []Cell
 	var hs []hist
 	slow := 0
+	certPEM, keyPEM := genCert(t)
 	for _, proto := range []string{"netrpc", "grpc"} {
-		for _, hostVers := range [][]int{nil, {2}} {
+		for _, hostVers := range [][]int{nil, {2}, {-1}} { // {-1}: (marker) the static-TLS variant, legacy plugins only
 			for _, h := range all {
 				if hostVers != nil && len(h.events) > 3 {
-					continue // hosts that also configure VersionedPlugins: the shorter histories
+					continue // hosts that also configure VersionedPlugins / sessions over TLS: the shorter histories
 				}
 				var ops, names []string
 				for _, e := range h.events {
@@ -109,6 +110,17 @@ func TestC15(t *testing.T) {
 				}
 				if h.st.alive {
 					ops = append(ops, "kill:0")
+				}
+				if len(hostVers) == 1 && hostVers[0] == -1 {
+					// the plugin serves over TLS (TLSProvider) and every client, launching or reattaching, carries the matching TLSConfig
+					cells = append(cells, Cell{
+						Name:   fmt.Sprintf("%s tls=static history=[%s]", proto, strings.Join(names, " ")),
+						Plugin: PluginConf{CookieKey: cookieKey, CookieValue: cookieVal, Legacy: 1, LegacyProto: proto, GRPCServer: true, TLS: "provider", CertPEM: certPEM, KeyPEM: keyPEM},
+						Host:   HostConf{Allowed: []string{"netrpc", "grpc"}, TLS: "static", Launch: "cmd", Legacy: 1, CertPEM: certPEM, KeyPEM: keyPEM},
+						Ops:    ops,
+					})
+					hs = append(hs, h)
+					continue
 				}
 				cells = append(cells, Cell{
 					Name:   fmt.Sprintf("%s host-versions=%v history=[%s]", proto, hostVers, strings.Join(names, " ")),
